@@ -432,7 +432,8 @@ class C02(Base):
     ID = "C02"
     AREA = "spec"
     LEMMA_FILES = ["FluentProofs/SpecLex.lean", "FluentProofs/SpecDedent.lean", "FluentProofs/SpecFuel.lean",
-                   "FluentProofs/SpecRefine.lean", "FluentProofs/SpecPatFlat.lean", "FluentProofs/SpecPatLoop.lean"]
+                   "FluentProofs/SpecRefine.lean", "FluentProofs/SpecPatFlat.lean", "FluentProofs/SpecPatLoop.lean",
+                   "FluentProofs/SpecEntries.lean", "FluentProofs/SpecResource.lean"]
     SEARCH_FACTOR = 2
     RULE = ("ref: the 68 reference trees of the repo (tests/fixtures/*.json + fixtures/benches/**/*.json) against the executable "
             "grammar and the parser; G2: random well-formed ASTs (all expression forms at all nesting positions, multi-line "
@@ -448,9 +449,12 @@ class C02(Base):
                    "error, no Junk and exactly the grammar's tree; all layouts of one AST must give one tree; runtime tree = "
                    "full tree minus comments. Differences on ill-formed sources (W=0) are leniencies: counted under "
                    "'leniency:*' in the input distribution, never reported. The parser MODEL is tied to the implementation on "
-                   "M/E/R for every case. Until the whole-resource theorem lands (see C02_full_statement in Props/C02.lean) "
-                   "the whole-resource claim rests on this differential test; the Lean theorems cover the lexical layer and "
-                   "the abstract-syntax (dedentation) core.")
+                   "M/E/R for every case. The whole-resource statement is the Lean theorem parse_refines_grammar (Props/C02.lean): "
+                   "for every String that the grammar calls well-formed and that satisfies the side condition Surv (which "
+                   "excludes exactly the shape of known finding F30 and holds for every source without a lone carriage "
+                   "return), the parser MODEL returns no error and the grammar's tree; this differential test ties the model "
+                   "and the executable grammar to the implementation and the reference, and watches the sources outside the "
+                   "side condition.")
 
     def __init__(self):
         self._info = {}     # case -> list of (W, leniency kind or None) recorded by predicate2 for classify
